@@ -307,7 +307,8 @@ def _worker(job):
                    src_inputs=list(net.inputs),
                    src_graph=[(o.kind, list(o.inputs), list(o.outputs), int((o.opts[1] if o.opts else {}).get("FusedActivationFunction", 0)),
                                int((o.opts[1] if o.opts else {}).get("Padding", -1))) for o in net.ops])
-        res = pipeline.compile_net(data, opts, name=f"n{idx}")
+        with c01_lib.WeightCapture() as capture:
+            res = pipeline.compile_net(data, opts, name=f"n{idx}")
         out.update(status=res.status, exc=(type(res.exc).__name__ + ": " + str(res.exc))[:300] if res.exc is not None else "",
                    exc_site=pipe_common.exc_site(res.tb, res.exc))
         if res.status == "ok" and res.out_model is not None:
@@ -328,7 +329,7 @@ def _worker(job):
                     pass
             try:
                 sets = c01_lib.make_inputs(rng, data, k_inputs)
-                line, sg, og = c01_lib.build_request(data, res, sets)
+                line, sg, og = c01_lib.build_request(data, res, sets, capture)
                 out["line"] = line
                 out["out_kinds"] = og.kinds
             except c01_lib.NotSimulated as e:
@@ -445,7 +446,7 @@ def main():
     import pipeline
 
     pipeline.load_vela()
-    n = 30000 if ck.thorough else 2000
+    n = 50000 if ck.thorough else 6000
     k_inputs = 5 if ck.thorough else 4
     jobs = [(0, 0, "known_" + nm, k_inputs) for nm in ("slice_relu", "fused_act_relu", "pad_conv_reshape", "quantize_relu", "reshape_relu",
                                                               "slice_window", "lut_reshape", "cascade_stale_row", "pad_avgpool_act")]
@@ -521,10 +522,11 @@ def main():
             "documentation (rounding modes, operand scaling of ADD/SUB, scale record layout, LUT addressing)",
             "Spec/TfliteRef.lean + harness/c01_lib.py: TensorFlow Lite reference kernels and QuantizeMultiplier transcribed "
             "from memory (tensorflow is not installable in the sandbox)",
-            "weights of each NPU operation are taken from Vela's tensors after graph optimisation (the MLW stream is C07/C08's subject)",
+            "weights of each NPU operation are the volumes Vela hands to the MLW encoder (weight_compressor.encode_weights inputs, captured "
+            "in-process per depth slice and core); the encoded stream itself is C07/C08's subject",
         ],
     }, assumptions=["sequential execution of the command stream in program order (C04)",
-                    "weights per operation = Vela's own weight tensor values (zero point removed, OHWI, depth slice)",
+                    "weights per operation = the OHWI volumes Vela passed to the MLW encoder for that depth slice (captured, not recomputed)",
                     "interface tensors are matched by position (C11)"])
 
 
